@@ -13,7 +13,7 @@ impl Prop for P {
     const ENGINE: &'static str = "E1-rawmodel";
 
     fn cases(tier: Tier) -> u32 {
-        tier.pick(8000, 120000)
+        tier.pick(16000, 120000)
     }
 
     fn strategy(tier: Tier) -> BoxedStrategy<History> {
